@@ -108,7 +108,7 @@ G_SENTENCE = (" Call sites (Engine G): the libawkward C++ methods that call thes
 N_FAMILIES = {
  "C01": "getitem_basic (integers, ranges with any bounds/step, ellipsis, newaxis, fields), getitem_array (one or two adjacent integer arrays of one or two dimensions, boolean arrays, index arrays with missing values), getitem_jagged (jagged integer/boolean indexes with missing entries, boolean masks with None, and -- one-level indexes -- missing rows), getitem_numpy (rectilinear arrays against NumPy's own indexing as oracle), carry_range (carry, x[a:b], x[i]), fields (x[\"f\"] and x[[\"f\", \"g\"]] through lists and options)",
  "C02": "layout_independent (metamorphic: the same operation -- reducers, num, flatten, local_index, pad_none, combinations, sort, argsort, slicing, carry, values_astype, field projection, fill_none -- on a random physical layout and on the compact canonical layout of the same value gives equal values and the same success-or-error outcome), tolist (every physical encoding -- ListArray/ListOffsetArray/RegularArray in 32/U32/64 bit, shifted or shuffled storage with unreachable elements, IndexedArray views, all five option encodings with arbitrary padding bits and negative indexes, strided/offset/reversed/n-dimensional NumpyArray, records, unions -- reads back as the encoded value), carry_range, convert (toListOffsetArray64, toRegularArray, option-encoding conversions, simplify, project, bytemask, deep_copy, contiguous), union_shared (the operations of the other families on union[x, x] whose two branches are literally the same buffers give what they give on x); every other family also draws its inputs from these encodings and compares with a layout-independent reference",
- "C03": "reduce_ragged (all ten reducers, every axis written positively or negatively, mask_identity, keepdims, missing leaves and missing lists, every encoding; integer, boolean, floating-point and -- a fifth of the cases -- complex64/complex128 leaves with NumPy's lexicographic order for min/max/argmin/argmax) and reduce_rect (rectilinear arrays incl. size-0 dimensions and n-dimensional NumpyArray)",
+ "C03": "reduce_ragged (all ten reducers, every axis written positively or negatively, mask_identity, keepdims, missing leaves and missing lists, every encoding; integer, boolean, floating-point and -- a fifth of the cases -- complex64/complex128 leaves with NumPy's lexicographic order for min/max/argmin/argmax) reduce_rect (rectilinear arrays incl. size-0 dimensions and n-dimensional NumpyArray) and reduce_datetime (min/max/argmin/argmax/count of datetime64 and timedelta64 leaves in s/ms/us, sum of time differences)",
  "C04": "broadcast (the list-alignment step only: broadcast_tooffsets64 of ListArray / ListOffsetArray / RegularArray onto offsets with the same list lengths keeps the value, a length-1 regular dimension repeats its element to the requested lengths, different lengths raise)",
  "C05": "num, flatten (incl. unions of list types), localindex at every axis; one union node (numbers against records, same list depth) at a random level",
  "C06": "sort and argsort along the innermost axis (both directions, stable or not, NaN first, missing leaves last, positions realise the order, ties in original order when stable; for sort also missing lists at the outermost level, which stay where they are; lists of strings and bytestrings sorted as whole units by bytes)",
